@@ -146,9 +146,11 @@ func TestVerifC42(t *testing.T) {
 		for k := tp.Choose(3); k > 0; k-- {
 			roots = append(roots, trees[tp.Choose(len(trees))].id)
 		}
-		// one tree reported as huge (handled by the dedicated worker)
-		if tp.Choose(3) == 0 {
-			ld.sizes[trees[tp.Choose(len(trees))].id] = 60 << 20
+		// up to three trees reported as huge (all handled by the one dedicated worker)
+		if tp.Choose(2) == 0 {
+			for k := tp.Range(1, 3); k > 0; k-- {
+				ld.sizes[trees[tp.Choose(len(trees))].id] = 60 << 20
+			}
 		}
 		// damage
 		damage := tp.Choose(4)
